@@ -396,7 +396,10 @@ func execHistory(se *session, w, h int, ops []shadow.Op, eo execOpts) *viol {
 				if m.C[i].Lock {
 					continue
 				}
-				nb := x > 0 && (wideSince[i-1] || prev[i-1].Wide || exp[i-1].Wide)
+				// right neighbour of a wide rune that CHANGED (directly, or by being covered /
+				// uncovered through a change one column further left)
+				wideAt := func(j int) bool { return wideSince[j] || prev[j].Wide || exp[j].Wide }
+				nb := (x > 0 && touched[i-1] && wideAt(i-1)) || (x > 1 && touched[i-2] && (wideAt(i-2) || wideAt(i-1)))
 				trickCell := trickN >= 0 && (i == trickN || i == trickN+1 || (i == trickN-1 && exp[trickN].Cont))
 				if !touched[i] && !nb && !unlocked[i] && !trickCell && !exp[i].Cont {
 					cat := "unchanged-cell-redrawn"
